@@ -196,8 +196,8 @@ theorem noHigh_adv {o : ParseOptions} {acc : List Char} {pe cp : Nat} {r : List 
   all_goals exact ⟨rfl, rfl⟩
 
 theorem flushChar_adv {o : ParseOptions} {acc : List Char} {high : Option (Nat × Nat)} {c : Char}
-    {r : List Char} {pos : Nat} {a : List Char} {hi : Option (Nat × Nat)} {r' : List Char} {p' : Nat}
-    (h : flushChar o acc high c r pos = .more a hi r' p') : r' = r ∧ p' = pos := by
+    {r : List Char} {pos pn : Nat} {a : List Char} {hi : Option (Nat × Nat)} {r' : List Char} {p' : Nat}
+    (h : flushChar o acc high c r pos pn = .more a hi r' p') : r' = r ∧ p' = pos := by
   unfold flushChar at h
   repeat' (split at h)
   all_goals (first | cases h | skip)
@@ -218,8 +218,8 @@ theorem strEscU_adv {o : ParseOptions} {bad : Bool} {acc : List Char} {high : Op
     all_goals exact h4'
 
 theorem strEsc_adv {o : ParseOptions} {bad : Bool} {acc : List Char} {high : Option (Nat × Nat)}
-    {r : List Char} {pos : Nat} {a : List Char} {hi : Option (Nat × Nat)} {r' : List Char} {p : Nat}
-    (h : strEsc o bad acc high r pos = .more a hi r' p) : AdvL r pos r' p := by
+    {r : List Char} {pos pn : Nat} {a : List Char} {hi : Option (Nat × Nat)} {r' : List Char} {p : Nat}
+    (h : strEsc o bad acc high r pos pn = .more a hi r' p) : AdvL r pos r' p := by
   unfold strEsc at h
   split at h
   · cases h
